@@ -29,11 +29,13 @@ type World struct {
 	nsetup int
 }
 
+var nodeLogLevel = gen.LogLevelDisabled
+
 func startNode(name string, mode gen.NetworkMode) *node {
 	opts := gen.NodeOptions{}
 	opts.Network.Mode = mode
 	opts.Log.DefaultLogger.Disable = true
-	opts.Log.Level = gen.LogLevelDisabled
+	opts.Log.Level = nodeLogLevel
 	n, err := Start(gen.Atom(name), opts, gen.Version{})
 	if err != nil {
 		panic(err)
@@ -55,9 +57,15 @@ func waitSleep(n *node, pid gen.PID) {
 // nodeBody wraps the build function of a scenario into an execution body: fresh node, declared
 // threads, run, oracle, tear-down.
 func nodeBody(build func(w *World)) func(ex *vsched.Exec) string {
+	return nodeBodyL(gen.LogLevelDisabled, build)
+}
+
+func nodeBodyL(level gen.LogLevel, build func(w *World)) func(ex *vsched.Exec) string {
 	return func(ex *vsched.Exec) string {
 		w := &World{ex: ex, recs: map[string]*rec{}, pids: map[string]gen.PID{}}
+		nodeLogLevel = level
 		w.n = startNode("verif@localhost", gen.NetworkModeDisabled)
+		nodeLogLevel = gen.LogLevelDisabled
 		build(w)
 		ex.Run()
 		for _, d := range ex.Deadlocked {
@@ -99,6 +107,7 @@ type probeCfg struct {
 	onMsg  func(p *probe, from gen.PID, m any) error
 	onCall func(p *probe, from gen.PID, ref gen.Ref, m any) (any, error)
 	onTerm func(p *probe, reason error)
+	onLog  func(p *probe, m gen.MessageLog) error
 }
 
 type probe struct {
@@ -190,6 +199,14 @@ func (p *probe) HandleCall(from gen.PID, ref gen.Ref, m any) (any, error) {
 		return p.cfg.onCall(p, from, ref, m)
 	}
 	return "re:" + fmt.Sprint(m), nil
+}
+func (p *probe) HandleLog(m gen.MessageLog) error {
+	p.enter("L:" + fmt.Sprintf(m.Format, m.Args...))
+	defer p.exit()
+	if p.cfg.onLog != nil {
+		return p.cfg.onLog(p, m)
+	}
+	return nil
 }
 func (p *probe) HandleEvent(m gen.MessageEvent) error {
 	p.enter("E:" + fmt.Sprint(m.Message))
